@@ -62,9 +62,12 @@ package resource_division
 //@ define keyedByUID(qs map[common_info.QueueID]*rs.QueueAttributes) bool = forall k in qs :: qs[k] != nil && qs[k].UID == k
 //@ define weightsNonNeg(qs map[common_info.QueueID]*rs.QueueAttributes, r rs.ResourceName) bool = forall k in qs :: weight(qs[k], r) >= 0.0
 
-// total over-quota weight of the unsatisfied queues: stated without the fold (no sum in the
-// spec language): non-negative, dominates every unsatisfied queue's weight, zero iff all such
-// weights are zero.
+// total over-quota weight of the unsatisfied queues: non-negative, dominates every unsatisfied queue's
+// weight, zero iff all such weights are zero (helper "c09"); (helper "c09b") [closedForm]: it IS the fold
+// sum k in queues :: ite(satisfied(k), 0, weight(k)).
+// (helper "c09b") closed form of the fold: the SUM over the siblings of the over-quota weight of the unsatisfied ones
+//@ define unsatW(q *rs.QueueAttributes, r rs.ResourceName) real = ite(satisfied(q, r), 0.0, weight(q, r))
+//@ define totalUnsatW(qs map[common_info.QueueID]*rs.QueueAttributes, r rs.ResourceName) real = sum k in qs :: unsatW(qs[k], r)
 //@ func getTotalWeightsForUnsatisfied
 //@   props C09
 //@   requires validRes(resourceName) && queuesOK(queues) && weightsNonNeg(queues, resourceName)
@@ -74,14 +77,28 @@ package resource_division
 //@     invariant forall k in visited :: k in queues
 //@     invariant forall k in visited :: !satisfied(queues[k], resourceName) ==> weight(queues[k], resourceName) <= totalOverQuotaWeights
 //@     invariant totalOverQuotaWeights > 0.0 ==> exists k in visited :: !satisfied(queues[k], resourceName) && weight(queues[k], resourceName) > 0.0
+//@     invariant totalOverQuotaWeights == sum k in visited :: unsatW(queues[k], resourceName)
 //@   ensures [nonneg] result >= 0.0
 //@   ensures [dominates] forall k in queues :: !satisfied(queues[k], resourceName) ==> weight(queues[k], resourceName) <= result
 //@   ensures [positiveHasWitness] result > 0.0 ==> exists k in queues :: !satisfied(queues[k], resourceName) && weight(queues[k], resourceName) > 0.0
+//@   ensures [closedForm] result == totalUnsatW(queues, resourceName)
 //@ end
 
 // share weight of one queue for total over-quota weight T and time-based-fairness factor kv
 //@ define shareWf(w real, u real, T real, kv real) real = max(0.0, w / T + kv * (w / T - u))
 //@ define shareW(q *rs.QueueAttributes, r rs.ResourceName, T real, kv real) real = shareWf(weight(q, r), usage(q, r), T, kv)
+
+// (helper "c09b") sums over a key set S (a map's dom(..) or the ghost `visited`): the share weights stored in a table / the
+// effective ("share") weight of the unsatisfied siblings (closed form). Sums are wrapped in defines so that the same
+// summand evaluated in different states / for different tables is related by pointwise congruence.
+//@ define swSum(S ref, m map[common_info.QueueID]float64) real = sum k in S :: m[k]
+// historical usages are shares of the cluster capacity (never negative); the time-based-fairness factor is clamped to >= 0 by the plugin (proportion.New [kValueNonNegative])
+//@ define usagesNonNeg(qs map[common_info.QueueID]*rs.QueueAttributes, r rs.ResourceName) bool = forall k in qs :: usage(qs[k], r) >= 0.0
+// C09 "every queue with positive effective over-quota weight is satisfied": the effective (share) weight of q is 0 when no unsatisfied sibling has a weight (T == 0) or the formula yields 0
+//@ define zeroEff(q *rs.QueueAttributes, r rs.ResourceName, T real, kv real) bool = T == 0.0 || shareW(q, r, T, kv) == 0.0
+//@ define noClaimant(qs map[common_info.QueueID]*rs.QueueAttributes, r rs.ResourceName, kv real) bool = forall k in qs :: satisfied(qs[k], r) || zeroEff(qs[k], r, totalUnsatW(qs, r), kv)
+//@ define effW(q *rs.QueueAttributes, r rs.ResourceName, T real, kv real) real = ite(satisfied(q, r), 0.0, shareW(q, r, T, kv))
+//@ define effWSum(S ref, qs map[common_info.QueueID]*rs.QueueAttributes, r rs.ResourceName, T real, kv real) real = sum k in S :: effW(qs[k], r, T, kv)
 
 // C09 ("within a priority the surplus is monotone in over-quota weight", "weight incl. 0", "all
 // k-values"): per-round share weights are >= 0, bounded by their sum, exist exactly for the
@@ -99,13 +116,29 @@ package resource_division
 //@     invariant resourceName == "Memory" ==> forall k in shareWeightsPerQueue :: shareWeightsPerQueue[k] == shareWf(queues[k].Memory.OverQuotaWeight, queues[k].Memory.Usage, totalWeights, kValue)
 //@     invariant resourceName == "GPU" ==> forall k in shareWeightsPerQueue :: shareWeightsPerQueue[k] == shareWf(queues[k].GPU.OverQuotaWeight, queues[k].GPU.Usage, totalWeights, kValue)
 //@     invariant forall k in shareWeightsPerQueue :: shareWeightsPerQueue[k] <= shareWeightsSum
+//@     invariant kValue >= 0.0 && usagesNonNeg(queues, resourceName) ==> forall k in queues :: weight(queues[k], resourceName) == 0.0 ==> shareWeightsPerQueue[k] == 0.0
+//@     invariant totalWeights == totalUnsatW(queues, resourceName)
+//@     invariant shareWeightsSum == swSum(visited, shareWeightsPerQueue)
+//@     invariant shareWeightsSum == effWSum(visited, queues, resourceName, totalWeights, kValue)
+//@   hint [formulaCPU] result1 != 0.0 && resourceName == "CPU" ==> forall k in result0 :: result0[k] == shareWf(queues[k].CPU.OverQuotaWeight, queues[k].CPU.Usage, totalUnsatW(queues, resourceName), kValue)
+//@   hint [formulaMemory] result1 != 0.0 && resourceName == "Memory" ==> forall k in result0 :: result0[k] == shareWf(queues[k].Memory.OverQuotaWeight, queues[k].Memory.Usage, totalUnsatW(queues, resourceName), kValue)
+//@   hint [formulaGPU] result1 != 0.0 && resourceName == "GPU" ==> forall k in result0 :: result0[k] == shareWf(queues[k].GPU.OverQuotaWeight, queues[k].GPU.Usage, totalUnsatW(queues, resourceName), kValue)
+//@   hint [formulaClosed] result1 != 0.0 ==> forall k in result0 :: result0[k] == shareW(queues[k], resourceName, totalUnsatW(queues, resourceName), kValue)
 //@   ensures [freshMap] result0 != nil && fresh(result0)
 //@   ensures [sumNonNeg] result1 >= 0.0
 //@   ensures [weightsNonNeg] forall k in result0 :: result0[k] >= 0.0
 //@   ensures [weightsLeSum] forall k in result0 :: result0[k] <= result1
 //@   ensures [keysUnsatisfied] forall k in result0 :: k in queues && !satisfied(queues[k], resourceName)
 //@   ensures [unsatisfiedHaveKey] result1 != 0.0 ==> forall k in queues :: !satisfied(queues[k], resourceName) ==> k in result0
-//@   ensures [formula] result1 != 0.0 ==> exists T real :: T > 0.0 && (forall k in queues :: !satisfied(queues[k], resourceName) ==> weight(queues[k], resourceName) <= T) && (forall k in result0 :: result0[k] == shareW(queues[k], resourceName, T, kValue))
+//@   # (helper "c09b") [formula] / [formulaClosed] / [sumClosedForm] are proved here but NOT exported (lemma / hint): their nonlinear bodies
+//@   # (w/T + k*(w/T - u)) in the caller's context made the sum steps of divideUpToFairShare undecided; no caller needs them.
+//@   # [formulaClosed] names the T of [formula]: it is totalUnsatW (the fold of getTotalWeightsForUnsatisfied).
+//@   lemma [formula] result1 != 0.0 ==> exists T real :: T > 0.0 && (forall k in queues :: !satisfied(queues[k], resourceName) ==> weight(queues[k], resourceName) <= T) && (forall k in result0 :: result0[k] == shareW(queues[k], resourceName, T, kValue))
+//@   ensures [sumOfWeights] totalUnsatW(queues, resourceName) != 0.0 ==> result1 == swSum(queues, result0)
+//@   ensures [zeroWeightZeroShare] kValue >= 0.0 && usagesNonNeg(queues, resourceName) ==> forall k in queues :: weight(queues[k], resourceName) == 0.0 ==> result0[k] == 0.0
+//@   ensures [zeroSumNoClaimant] result1 == 0.0 ==> noClaimant(queues, resourceName, kValue)
+//@   lemma [sumClosedForm] totalUnsatW(queues, resourceName) != 0.0 ==> result1 == effWSum(queues, queues, resourceName, totalUnsatW(queues, resourceName), kValue)
+//@   ensures [nothingToShare] totalUnsatW(queues, resourceName) == 0.0 ==> result1 == 0.0 && forall k common_info.QueueID :: !(k in result0)
 //@   ensures [weightMonotoneCPU] resourceName == "CPU" && kValue >= 0.0 ==> forall a in result0 :: forall b in result0 :: queues[a].CPU.OverQuotaWeight <= queues[b].CPU.OverQuotaWeight && queues[a].CPU.Usage >= queues[b].CPU.Usage ==> result0[a] <= result0[b]
 //@   ensures [weightMonotoneMemory] resourceName == "Memory" && kValue >= 0.0 ==> forall a in result0 :: forall b in result0 :: queues[a].Memory.OverQuotaWeight <= queues[b].Memory.OverQuotaWeight && queues[a].Memory.Usage >= queues[b].Memory.Usage ==> result0[a] <= result0[b]
 //@   ensures [weightMonotoneGPU] resourceName == "GPU" && kValue >= 0.0 ==> forall a in result0 :: forall b in result0 :: queues[a].GPU.OverQuotaWeight <= queues[b].GPU.OverQuotaWeight && queues[a].GPU.Usage >= queues[b].GPU.Usage ==> result0[a] <= result0[b]
@@ -123,6 +156,10 @@ package resource_division
 // queues that are not among the siblings keep their shares (and their fair-share cache)
 //@ define othersKept(qs map[common_info.QueueID]*rs.QueueAttributes) bool = forall q *rs.QueueAttributes :: q != nil && !member(qs, q) ==> q.CPU.FairShare == old(q.CPU.FairShare) && q.Memory.FairShare == old(q.Memory.FairShare) && q.GPU.FairShare == old(q.GPU.FairShare) && q.lastFairShare == old(q.lastFairShare)
 
+// (helper "c09b") sums over a key set S of the siblings: what phase 1 hands out / the fair shares themselves
+//@ define deservedSum(S ref, qs map[common_info.QueueID]*rs.QueueAttributes, r rs.ResourceName, total real) real = sum k in S :: deservedPart(qs[k], r, total)
+//@ define fairSum(S ref, qs map[common_info.QueueID]*rs.QueueAttributes, r rs.ResourceName) real = sum k in S :: fair(qs[k], r)
+
 // C09: "each queue's fair share is at least min(deserved quota, its request capped by its limit)":
 // phase 1 adds exactly that amount to every sibling (functional, hence independent of the map
 // iteration order), touches no other queue and no other resource.
@@ -137,7 +174,11 @@ package resource_division
 //@     invariant forall k in queues :: otherResKept(queues[k], resource)
 //@     invariant othersKept(queues)
 //@     invariant (forall k in queues :: deservedPart(queues[k], resource, totalResourceAmount) >= 0.0) ==> remainingAmount <= totalResourceAmount && forall k in visited :: remainingAmount <= totalResourceAmount - deservedPart(queues[k], resource, totalResourceAmount)
+//@     invariant remainingAmount == totalResourceAmount - deservedSum(visited, queues, resource, totalResourceAmount)
+//@     invariant fairSum(queues, queues, resource) + remainingAmount == old(fairSum(queues, queues, resource)) + totalResourceAmount
 //@   ensures [deservedAdded] forall k in queues :: fair(queues[k], resource) == old(fair(queues[k], resource)) + deservedPart(queues[k], resource, totalResourceAmount)
+//@   ensures [leftAfterDeserved] remainingAmount == totalResourceAmount - deservedSum(queues, queues, resource, totalResourceAmount)
+//@   ensures [conservation] fairSum(queues, queues, resource) + remainingAmount == old(fairSum(queues, queues, resource)) + totalResourceAmount
 //@   ensures [otherResourcesKept] forall k in queues :: otherResKept(queues[k], resource)
 //@   ensures [otherQueuesKept] othersKept(queues)
 //@   ensures [cache] queuesOK(queues)
@@ -243,8 +284,32 @@ package resource_division
 // rounding unit": by nothing at all in this phase), nothing is taken back (remaining <= total), other
 // resources / other queues are untouched, and every rounding remainder recorded for the remainder
 // phase belongs to a still unsatisfied queue of this level and is < 1 unit.
-// NOT proved here (needs a sum over the visited queues, which the spec language cannot express):
-// remaining >= 0 ("the surplus handed out never exceeds what is left").
+// (helper "c09b", finite sums) C09 "the surplus handed out never exceeds what is left after deserved quotas":
+//  [conservation]  sum of the siblings' shares + what is left == the same before + the amount to divide (every unit taken
+//                  from the counter went into exactly one sibling's share, every round, every iteration order);
+//  [neverNegative] the counter never goes below 0 (per round: what a queue gets is <= its round share A*(w_k/S), the round
+//                  shares of all siblings add up to A because the normalised weights w_k/S add up to 1);
+//  C09 "surplus stays undistributed only if every queue with positive effective over-quota weight is satisfied" and
+//  "while a higher over-quota priority is unsatisfied, lower priorities receive at most its rounding remainder (less than
+//  one unit per higher-priority queue)":
+//  [priorityLaw]   what this level leaves (= what the next lower priority gets to divide) is 0, or no unsatisfied sibling
+//                  has a positive effective weight (noClaimant: then everything is passed down), or it is < 1 unit per
+//                  still-unsatisfied sibling with non-zero over-quota weight (the floor() remainders of the last round).
+//                  Needs kValue >= 0 (proportion.New clamps it) and usages >= 0: otherwise a sibling with weight 0 can get a
+//                  positive share weight, is skipped by the rounds, and its share of the surplus is silently passed down.
+// Order-independence of the weighted rounds is NOT stated as a functional postcondition (the result is a fixpoint over an
+// unbounded number of rounds; the state at the head of a round cannot be named in an inner-loop invariant); every clause
+// above is proved for every iteration order (the key picked by each range step is arbitrary).
+// (helper "c09b") round share of queue k: the code's `amountToGiveInCurrentRound * (shareWeightsPerQueue[k] / shareWeightsSum)`, and its sum
+//@ define roundShare(m map[common_info.QueueID]float64, k common_info.QueueID, A real, S real) real = A * (m[k] / S)
+// normalised weights of a round add up to 1 (engine: sums are linear in a factor that does not depend on the key)
+//@ define normSum(V ref, m map[common_info.QueueID]float64, S real) real = sum k in V :: m[k] / S
+//@ define roundShareSum(V ref, m map[common_info.QueueID]float64, A real, S real) real = sum k in V :: roundShare(m, k, A, S)
+// (helper "c09b") unsatisfied siblings that take part in the weighted rounds (over-quota weight != 0), and their number
+//@ define unsatNZ(q *rs.QueueAttributes, r rs.ResourceName) bool = !satisfied(q, r) && weight(q, r) != 0.0
+//@ define unsatCount(S ref, qs map[common_info.QueueID]*rs.QueueAttributes, r rs.ResourceName) int = count k in S :: unsatNZ(qs[k], r)
+// "less than one unit per unsatisfied queue": left < shares + c strictly, or nothing is owed to anybody (c == 0) and left <= shares
+//@ define lawBound(left real, c int) bool = left < real(c) || (c == 0 && left <= 0.0)
 //@ func divideUpToFairShare
 //@   props C09
 //@   requires validRes(resourceName) && queuesOK(queues) && keyedByUID(queues) && weightsNonNeg(queues, resourceName)
@@ -259,9 +324,20 @@ package resource_division
 //@     invariant rrOK(remainingRequested, queues, resourceName)
 //@     invariant rrDistinct(remainingRequested)
 //@     invariant oldTablesKept()
+//@     invariant totalResourceAmount >= 0.0 ==> cur(totalResourceAmount) >= 0.0
+//@     invariant fairSum(queues, queues, resourceName) + cur(totalResourceAmount) == old(fairSum(queues, queues, resourceName)) + totalResourceAmount
 //@   loop 2
 //@     invariant remainingRequested != nil && fresh(remainingRequested)
 //@     invariant forall k in visited :: k in queues
+//@     invariant shareWeightsSum > 0.0 && shareWeightsSum == swSum(queues, shareWeightsPerQueue) && forall k common_info.QueueID :: shareWeightsPerQueue[k] >= 0.0
+//@     invariant normSum(queues, shareWeightsPerQueue, shareWeightsSum) == 1.0
+//@     invariant roundShareSum(queues, shareWeightsPerQueue, amountToGiveInCurrentRound, shareWeightsSum) == amountToGiveInCurrentRound
+//@     invariant totalResourceAmount >= 0.0 ==> amountToGiveInCurrentRound >= 0.0
+//@     invariant totalResourceAmount >= 0.0 ==> amountToGiveInCurrentRound - cur(totalResourceAmount) <= roundShareSum(visited, shareWeightsPerQueue, amountToGiveInCurrentRound, shareWeightsSum)
+//@     invariant fairSum(queues, queues, resourceName) + cur(totalResourceAmount) == old(fairSum(queues, queues, resourceName)) + totalResourceAmount
+//@     invariant forall k in queues :: !(k in visited) ==> ((k in shareWeightsPerQueue) == !satisfied(queues[k], resourceName))
+//@     invariant kValue >= 0.0 && usagesNonNeg(queues, resourceName) ==> forall k in queues :: weight(queues[k], resourceName) == 0.0 ==> shareWeightsPerQueue[k] == 0.0
+//@     invariant totalResourceAmount >= 0.0 && kValue >= 0.0 && usagesNonNeg(queues, resourceName) && !shouldRunAnotherRound ==> lawBound(cur(totalResourceAmount) - amountToGiveInCurrentRound + roundShareSum(visited, shareWeightsPerQueue, amountToGiveInCurrentRound, shareWeightsSum), unsatCount(visited, queues, resourceName))
 //@     invariant queuesOK(queues)
 //@     invariant cur(totalResourceAmount) <= totalResourceAmount
 //@     invariant forall k in queues :: fair(queues[k], resourceName) >= old(fair(queues[k], resourceName)) && fair(queues[k], resourceName) <= max(old(fair(queues[k], resourceName)), capReq(queues[k], resourceName))
@@ -270,8 +346,13 @@ package resource_division
 //@     invariant rrOK(remainingRequested, queues, resourceName)
 //@     invariant rrDistinct(remainingRequested)
 //@     invariant oldTablesKept()
+//@   hint [lastRoundHadNoClaimant] shareWeightsSum == 0.0 ==> noClaimant(queues, resourceName, kValue)
+//@   hint [lastRoundLeftLessThanOneUnitEach] totalResourceAmount >= 0.0 && kValue >= 0.0 && usagesNonNeg(queues, resourceName) ==> remainingAmount == 0.0 || shareWeightsSum == 0.0 || remainingAmount < real(unsatCount(queues, queues, resourceName))
 //@   ensures [remainderTableFresh] remainingRequested != nil && fresh(remainingRequested)
 //@   ensures [nothingTakenBack] remainingAmount <= totalResourceAmount
+//@   ensures [neverNegative] totalResourceAmount >= 0.0 ==> remainingAmount >= 0.0
+//@   ensures [conservation] fairSum(queues, queues, resourceName) + remainingAmount == old(fairSum(queues, queues, resourceName)) + totalResourceAmount
+//@   ensures [priorityLaw] totalResourceAmount >= 0.0 && kValue >= 0.0 && usagesNonNeg(queues, resourceName) ==> remainingAmount == 0.0 || noClaimant(queues, resourceName, kValue) || remainingAmount < real(unsatCount(queues, queues, resourceName))
 //@   ensures [sharesOnlyGrow] forall k in queues :: fair(queues[k], resourceName) >= old(fair(queues[k], resourceName))
 //@   ensures [neverBeyondCappedRequest] forall k in queues :: fair(queues[k], resourceName) <= max(old(fair(queues[k], resourceName)), capReq(queues[k], resourceName))
 //@   ensures [otherResourcesKept] forall k in queues :: otherResKept(queues[k], resourceName)
@@ -297,6 +378,8 @@ package resource_division
 // the share of q for resource r is as in the pre-state
 //@ define ungained(q *rs.QueueAttributes, r rs.ResourceName) bool = fair(q, r) == old(fair(q, r))
 
+// (helper "c09b") number of records of a remainder table (S = the table, or the ghost `visited` of a loop over it)
+//@ define rrCount(S ref) int = count k in S :: true
 // the priority queue of the remainder phase holds every record of the table exactly once (functional:
 // independent of the map iteration order up to the heap's internal layout)
 //@ func sortByOverQuotaWeight
@@ -309,10 +392,13 @@ package resource_division
 //@     invariant forall k in visited :: k in remainingRequested
 //@     invariant pqFromTable(sortedGroupQueues, remainingRequested)
 //@     invariant forall i int :: 0 <= i && i < len(sortedGroupQueues.queue.items) ==> unbox(sortedGroupQueues.queue.items[i], "*remainingRequestedResource").queue.UID in visited
-//@     invariant pqNoDup(sortedGroupQueues)
+//@     invariant len(sortedGroupQueues.queue.items) == rrCount(visited)
 //@   ensures [unbounded] result != nil && result.maxQueueSize == 0 - 1 && fresh(result.queue.items)
 //@   ensures [onlyTableRecords] pqFromTable(result, remainingRequested)
-//@   ensures [noDuplicates] pqNoDup(result)
+//@   # (helper "c09b", on main's instruction) `invariant pqNoDup(sortedGroupQueues)` / `ensures [noDuplicates] pqNoDup(result)` removed: the
+//@   # preservation through Push was decided only in the retry phase (10-80 s, red under load) and no unit uses the clause;
+//@   # "one element per record" is now claimed as the cardinality fact [oneElementPerRecord] (count of the table's keys).
+//@   ensures [oneElementPerRecord] len(result.queue.items) == rrCount(remainingRequested)
 //@ end
 
 // C09, remainder phase of one priority level ("the surplus handed out never exceeds what is left",
@@ -322,6 +408,11 @@ package resource_division
 // NOT proved: "every queue receives at most ONE unit" (invariants `pqNoDup(sortedQueues)` + `every record
 // still in the heap is ungained` + `gain <= 1`; the preservation queries through the trusted Pop contract
 // ([removedOnce], [noNewDuplicates]) are not decided by any solver within 120 s), see report.
+// (helper "c09b") [exactRemainder]: with n = number of records of the table, exactly min(total, n) is handed out (one unit per
+// popped record, the last one possibly a fraction), i.e. remaining == max(total - n, 0): C09 "surplus stays undistributed
+// only if ..." for this phase = only when every recorded queue has received its unit. NOT proved: the exact conservation
+// over the table's queues (the key of the popped record is never used as a map key by the code, so the sum over the table
+// cannot be split at it: no way to name a body-local value in an invariant).
 //@ func divideRemainingResource
 //@   props C09
 //@   requires validRes(resourceName) && totalResourceAmount >= 0.0 && rrKeyed(remainingRequested)
@@ -333,10 +424,13 @@ package resource_division
 //@     invariant forall i int :: 0 <= i && i < len(sortedQueues.queue.items) ==> inTable(remainingRequested, unbox(sortedQueues.queue.items[i], "*remainingRequestedResource").queue)
 //@     invariant cur(totalResourceAmount) >= 0.0 && cur(totalResourceAmount) <= totalResourceAmount
 //@     invariant rrKeyed(remainingRequested)
+//@     invariant len(sortedQueues.queue.items) <= rrCount(remainingRequested)
+//@     invariant cur(totalResourceAmount) == max(totalResourceAmount - real(rrCount(remainingRequested) - len(sortedQueues.queue.items)), 0.0)
 //@     invariant forall q *rs.QueueAttributes :: q != nil ==> fair(q, resourceName) >= old(fair(q, resourceName)) && otherResKept(q, resourceName)
 //@     invariant forall q *rs.QueueAttributes :: q != nil && !inTable(remainingRequested, q) ==> ungained(q, resourceName) && q.lastFairShare == old(q.lastFairShare)
 //@   ensures [neverNegative] remainingAmount >= 0.0
 //@   ensures [nothingTakenBack] remainingAmount <= totalResourceAmount
+//@   ensures [exactRemainder] remainingAmount == max(totalResourceAmount - real(rrCount(remainingRequested)), 0.0)
 //@   ensures [sharesOnlyGrow] forall q *rs.QueueAttributes :: q != nil ==> fair(q, resourceName) >= old(fair(q, resourceName))
 //@   ensures [otherResourcesKept] forall q *rs.QueueAttributes :: q != nil ==> otherResKept(q, resourceName)
 //@   ensures [onlyTableQueues] forall q *rs.QueueAttributes :: q != nil && !inTable(remainingRequested, q) ==> ungained(q, resourceName) && q.lastFairShare == old(q.lastFairShare)
@@ -354,8 +448,11 @@ package resource_division
 // order delivered by getQueuesByPriority; each level first gets its weighted rounds, then, while something
 // is left, the levels get their remainder hand-out in the same order). Proved per queue: shares only grow,
 // nothing is taken back, other resources / other queues untouched; both loops terminate.
-// NOT proved: "while a higher priority is unsatisfied, lower priorities receive at most its rounding
-// remainder" and remaining >= 0 (both need the sum of the shares handed out in divideUpToFairShare).
+// (helper "c09b") [neverNegative]: remaining >= 0 through all levels and both phases. The priority law is stated where it
+// is implemented (divideUpToFairShare [priorityLaw]: what a level passes down) and the levels are visited in the strictly
+// descending order of getQueuesByPriority. NOT proved here: the exact conservation over ALL siblings (it holds per level,
+// divideUpToFairShare [conservation]; adding the levels up needs a sum over a partition of the key set, which the sum
+// axioms - one-point splits only - do not give).
 //@ func divideOverQuotaResource
 //@   props C09
 //@   requires validRes(resourceName) && queuesOK(queues) && keyedByUID(queues) && weightsNonNeg(queues, resourceName)
@@ -365,6 +462,7 @@ package resource_division
 //@     invariant remainingRequested != nil && fresh(remainingRequested)
 //@     invariant queuesOK(queues)
 //@     invariant remainingAmount <= totalResourceAmount
+//@     invariant totalResourceAmount >= 0.0 ==> remainingAmount >= 0.0
 //@     invariant forall k in queues :: grown(queues[k], resourceName)
 //@     invariant othersKept(queues)
 //@     invariant rrAllOK(remainingRequested, queues)
@@ -375,12 +473,14 @@ package resource_division
 //@     invariant remainingRequested != nil && fresh(remainingRequested)
 //@     invariant queuesOK(queues)
 //@     invariant remainingAmount <= totalResourceAmount
+//@     invariant totalResourceAmount >= 0.0 ==> remainingAmount >= 0.0
 //@     invariant forall k in queues :: grown(queues[k], resourceName)
 //@     invariant othersKept(queues)
 //@     invariant rrAllOK(remainingRequested, queues)
 //@     invariant oldTablesKept()
 //@     decreases len(priorities) - rangeindex
 //@   ensures [nothingTakenBack] remainingAmount <= totalResourceAmount
+//@   ensures [neverNegative] totalResourceAmount >= 0.0 ==> remainingAmount >= 0.0
 //@   ensures [sharesOnlyGrow] forall k in queues :: fair(queues[k], resourceName) >= old(fair(queues[k], resourceName))
 //@   ensures [otherResourcesKept] forall k in queues :: otherResKept(queues[k], resourceName)
 //@   ensures [otherQueuesKept] othersKept(queues)
@@ -397,6 +497,9 @@ package resource_division
 //@   requires validRes(resourceName) && queuesOK(queues) && keyedByUID(queues) && weightsNonNeg(queues, resourceName)
 //@   modifies family(queues[""].CPU.FairShare), family(queues[""].lastFairShare)
 //@   ensures [deservedFloor] forall k in queues :: fair(queues[k], resourceName) >= old(fair(queues[k], resourceName)) + deservedPart(queues[k], resourceName, totalAmount)
+//@   ensures [neverNegative] result >= 0.0
+//@   ensures [surplusBounded] result <= max(totalAmount - deservedSum(queues, queues, resourceName, totalAmount), 0.0)
+//@   ensures [nothingLeftWhenOverbooked] totalAmount - deservedSum(queues, queues, resourceName, totalAmount) <= 0.0 ==> result == 0.0
 //@   ensures [otherResourcesKept] forall k in queues :: otherResKept(queues[k], resourceName)
 //@   ensures [otherQueuesKept] othersKept(queues)
 //@   ensures [cache] queuesOK(queues)
